@@ -224,13 +224,26 @@ def corpus_cases():
     return out
 
 
+def fixed_cases():
+    """the witnesses of the repaired findings (known_findings.json, status "fixed"): they are
+    judged like every generated case, their class being excused no more"""
+    out = []
+    for e in common.load_known('C01'):
+        if e.get('status') == 'fixed' and 'witness' in e:
+            oids = wire.Oids()
+            out.append({'filter': wire.dec(e['witness']['wire_filter'], oids),
+                        'docs': [wire.dec(e['witness']['wire_doc'], oids)], 'oids': oids,
+                        'ops': {}, 'finding': e['id']})
+    return out
+
+
 def run(ctx, proof, driver_ok):
     if not driver_ok:
         return {'explanation': 'model driver unavailable; no correspondence run'}
     n = ctx.n(30000, 400000)
     rng = random.Random(ctx.seed * 1000003 + 101)
     judge = Judge(ctx)
-    corpus = corpus_cases()
+    corpus = corpus_cases() + fixed_cases()
     run_cases(ctx, corpus, judge)
     ops = collections.Counter()
     nontrivial = set()
